@@ -1,6 +1,7 @@
 package types
 
 import (
+	"errors"
 	"fmt"
 	"github.com/LemoFoundationLtd/lemochain-core/common"
 	"github.com/LemoFoundationLtd/lemochain-core/common/hexutil"
@@ -55,6 +56,9 @@ type Pair struct {
 
 type Profile map[string]string
 
+// ErrProfileKeyOrder is returned by Profile.DecodeRLP for a pair list that Profile.EncodeRLP never writes
+var ErrProfileKeyOrder = errors.New("profile keys must be unique and in ascending order")
+
 func (a *Profile) Clone() *Profile {
 	if a == nil {
 		return nil
@@ -88,12 +92,8 @@ func (a *Profile) EncodeRLP(w io.Writer) error {
 	}
 }
 
+// DecodeRLP reads what EncodeRLP writes: the list of the (key, value) pairs, every key once, in ascending key order
 func (a *Profile) DecodeRLP(s *rlp.Stream) error {
-	_, size, _ := s.Kind()
-	if size <= 0 {
-		return nil
-	}
-
 	dec := make([]Pair, 0)
 	err := s.Decode(&dec)
 	if err != nil {
@@ -101,6 +101,9 @@ func (a *Profile) DecodeRLP(s *rlp.Stream) error {
 	}
 
 	for index := 0; index < len(dec); index++ {
+		if index > 0 && dec[index-1].Key >= dec[index].Key {
+			return ErrProfileKeyOrder
+		}
 		(*a)[dec[index].Key] = dec[index].Val
 	}
 	return nil
